@@ -2,6 +2,8 @@ import Bmc.Proofs.C03
 import Bmc.Proofs.GenLoops.BuildAndSend
 import Bmc.Proofs.GenEnc.V2Session
 import Bmc.Proofs.GenEnc.Message
+import Bmc.Proofs.GenEnc.AES128CBC
+import Bmc.Proofs.EndToEnd.SessionC03
 #print axioms Bmc.Proofs.C03.datagram_shape
 #print axioms Bmc.Proofs.C03.integrity_pad
 #print axioms Bmc.Proofs.C03.payload_decrypts
@@ -16,3 +18,7 @@ import Bmc.Proofs.GenEnc.Message
 #print axioms Bmc.Proofs.GenLoops.V2Session_SendCommand_events_eq
 #print axioms Bmc.Proofs.GenEnc.V2Session_enc_eq
 #print axioms Bmc.Proofs.GenEnc.Message_enc_eq
+#print axioms Bmc.Proofs.GenEnc.AES128CBC_enc_param
+#print axioms Bmc.Proofs.GenEnc.AES128CBC_enc_eq
+#print axioms Bmc.Proofs.GenEnc.AES128CBC_enc_randErr
+#print axioms Bmc.Proofs.EndToEnd.generated_loop_datagrams
